@@ -400,7 +400,7 @@ protected:
 	    \param len length to extract to
 	    \param mtype message type to extract to
 	    \return number of bytes consumed */
-	static unsigned extract_header(const f8String& from, char *len, char *mtype);
+	static unsigned extract_header(const f8String& from, char (&len)[MAX_MSGTYPE_FIELD_LEN], char (&mtype)[MAX_MSGTYPE_FIELD_LEN]);
 
 	/*! Extract chksum from a trailer buffer
 	    \param from source buffer
@@ -889,9 +889,12 @@ public:
 	    \param tag tag to extract to
 	    \param val value to extract to
 	    \return number of bytes consumed */
-	static unsigned extract_element(const char *from, const unsigned sz, char *tag, char *val)
+	template<size_t TagSz, size_t ValSz>
+	static unsigned extract_element(const char *from, const unsigned sz, char (&tag)[TagSz], char (&val)[ValSz])
 	{
 		enum { get_tag, get_value } state(get_tag);
+		char *tptr(tag), *vptr(val);
+		const char * const tend(tag + TagSz - 1), * const vend(val + ValSz - 1); // keep room for the terminator
 
 		for (unsigned ii(0); ii < sz; ++ii)
 		{
@@ -901,23 +904,27 @@ public:
 				if (!isdigit(from[ii]))
 				{
 					if (from[ii] != default_assignment_separator)
-						return *val = *tag = 0;
+						return *vptr = *tptr = 0;
 					state = get_value;
 				}
+				else if (tptr == tend)	// tag does not fit the caller's buffer
+					return *vptr = *tptr = 0;
 				else
-					*tag++ = from[ii];
+					*tptr++ = from[ii];
 				break;
 			case get_value:
 				if (from[ii] == default_field_separator)
 				{
-					*val = *tag = 0;
+					*vptr = *tptr = 0;
 					return ++ii;
 				}
-				*val++ = from[ii];
+				if (vptr == vend)	// value does not fit the caller's buffer
+					return *vptr = *tptr = 0;
+				*vptr++ = from[ii];
 				break;
 			}
 		}
-		return *val = *tag = 0;
+		return *vptr = *tptr = 0;
 	}
 
 	/*! Extract a tag and fixed width value element from a char buffer. ULL version.
